@@ -12,8 +12,11 @@
 package c09
 
 import (
+	"encoding/json"
 	"fmt"
 	"os"
+	"os/exec"
+	"runtime/debug"
 	"strconv"
 	"strings"
 	"time"
@@ -23,6 +26,7 @@ import (
 	bo "github.com/benoitkugler/webrender/html/boxes"
 	"github.com/benoitkugler/webrender/html/tree"
 	"github.com/benoitkugler/webrender/images"
+	"github.com/benoitkugler/webrender/text"
 	"github.com/benoitkugler/webrender/utils"
 	"golang.org/x/net/html"
 
@@ -604,6 +608,51 @@ func genHiddenDoc(r *rng.R) string {
 	return fmt.Sprintf("<html><style>%s</style><body>%s</body></html>", strings.Join(css, "\n"), body.String())
 }
 
+const pngURI = "data:image/png;base64,iVBORw0KGgoAAAANSUhEUgAAAAEAAAABCAYAAAAfFcSJAAAADUlEQVR42mP8z8BQDwAEhQGAhKmMIQAAAABJRU5ErkJggg=="
+
+// genReplacedDoc: replaced elements that really load (img / object / embed with data: URIs of a valid SVG
+// or PNG, inline svg with shapes), with fallback children, ::before/::after/::marker content and every
+// display value incl. list-item, floats and positions; the children must generate no box.
+func genReplacedDoc(r *rng.R) string {
+	var css []string
+	var body strings.Builder
+	n := r.Range(1, 4)
+	for i := 0; i < n; i++ {
+		id := fmt.Sprintf("r%d", i)
+		st := "display:" + rng.Pick(r, "inline", "block", "list-item", "inline list-item", "inline-block", "table-cell", "flex", "table-column", "table-caption", "grid", "table")
+		if r.P(1, 3) {
+			st += ";float:" + rng.Pick(r, "left", "right", "footnote")
+		}
+		if r.P(1, 3) {
+			st += ";position:" + rng.Pick(r, "absolute", "relative", "fixed", "running(hd)")
+		}
+		if r.P(1, 3) {
+			st += ";list-style-position:" + rng.Pick(r, "inside", "outside")
+		}
+		for _, ps := range []string{"before", "after", "marker"} {
+			if r.P(1, 2) {
+				css = append(css, fmt.Sprintf("#%s::%s{content:%s;display:%s}", id, ps, rng.Pick(r, `"x"`, `"p q"`), rng.Pick(r, "inline", "block", "table-cell")))
+			}
+		}
+		uri := rng.Pick(r, svgURI, pngURI)
+		kids := rng.Pick(r, "", "t", "<p>fallback <b>b</b></p>", `<span style="float:left">f</span>u`, `<div style="display:table-cell">c</div>`, `<li>i</li><img src="`+svgURI+`">`)
+		switch r.Intn(5) {
+		case 0:
+			fmt.Fprintf(&body, `<img id="%s" src="%s" alt="alt" style="%s">`, id, uri, st)
+		case 1:
+			fmt.Fprintf(&body, `<object id="%s" data="%s" style="%s">%s</object>`, id, uri, st, kids)
+		case 2:
+			fmt.Fprintf(&body, `<embed id="%s" src="%s" style="%s">`, id, uri, st)
+		case 3:
+			fmt.Fprintf(&body, `<svg id="%s" width="8" height="8" style="%s"><g><rect width="4" height="4"/><circle r="2"/><text>t</text></g><foreignObject><p>q</p></foreignObject></svg>`, id, st)
+		default:
+			fmt.Fprintf(&body, `<div style="display:%s"><object id="%s" data="%s" style="%s">%s</object>v</div>`, rng.Pick(r, "block", "flex", "table-row", "inline"), id, uri, st, kids)
+		}
+		body.WriteString(rng.Pick(r, "", " ", "w"))
+	}
+	return fmt.Sprintf("<html><style>%s</style><body>%s</body></html>", strings.Join(css, "\n"), body.String())
+}
+
 // genGridDoc: a plain table with many rows/cells and dense spans (the grid-slot assignment of wrapTable).
 func genGridDoc(r *rng.R) string {
 	var sb strings.Builder
@@ -1014,41 +1063,164 @@ var corpus = []string{
 }
 
 // Run is the runner entry.
+//
+// The real code can die in ways `recover` cannot catch (a seeded or genuine unbounded recursion ends in
+// "fatal error: stack overflow"), and a document may kill the model driver.  The work therefore runs in a
+// worker sub-process (this same executable, env C09_WORKER=1) that notes the step it is about to run in a
+// progress file; the supervisor turns the death of a worker into a `crash` finding that carries the
+// document, and starts a new worker after that step.
 func Run(tier string, seed uint64, modelPath, repo string, out *res.Result) error {
-	m, err := mp.Start(modelPath)
-	if err != nil {
-		return err
-	}
-	defer m.Close()
-	render.Quiet()
-	rn := &runner{m: m, out: out, debug: os.Getenv("C09_DEBUG") != ""}
 	out.Rule = "random HTML documents: 1-3 top-level items, <= ~10 elements, depth <= 4; every element gets display from the 20 values makeBox supports + none " +
 		"(mis-nested table parts on purpose), float, position (absolute/fixed/relative, running() in 1/4 of the documents), white-space, caption-side, " +
 		"colspan/rowspan/span attributes (valid, 0, negative, junk) on any element; real <table> markup with thead/tfoot/colgroup/col; ::before/::after/::marker with any display; " +
-		"list items; replaced elements (img/object/svg); float:footnote (rare); mixed text (blank, spaces, newlines); every 10th document crosses display:none with every float (incl. footnote) / position (incl. running) / footnote-display value on list items, table parts, replaced elements with children, with content in ::before/::after/::marker/::footnote-call/::footnote-marker and hidden ancestors of footnotes and running elements (the DOM judge also walks the footnotes list and the footnote bodies hanging off ::footnote-call boxes; display:none is read from the cascade before any box is built); every 10th document is a plain table with up to 3 groups x 6 rows x 6 cells and dense colspan 0-4 / rowspan 0-5 (grid-slot assignment). Each document: L1 five passes vs model stage by stage, " +
+		"list items; replaced elements that really load (img/object/embed with data: URIs of a valid SVG or PNG, inline svg with shapes) carrying fallback children, ::before/::after/::marker content and list-item display; float:footnote (rare); mixed text (blank, spaces, newlines); every 10th document crosses display:none with every float (incl. footnote) / position (incl. running) / footnote-display value on list items, table parts, replaced elements with children, with content in ::before/::after/::marker/::footnote-call/::footnote-marker and hidden ancestors of footnotes and running elements (the DOM judge also walks the footnotes list and the footnote bodies hanging off ::footnote-call boxes; display:none is read from the cascade before any box is built); every 10th document is a plain table with up to 3 groups x 6 rows x 6 cells and dense colspan 0-4 / rowspan 0-5 (grid-slot assignment). Each document: L1 five passes vs model stage by stage, " +
 		"L2 BuildFormattingStructure judged by WF and against the DOM. non-trivial = raw tree contains a table-part/flex/grid box or a block inside an inline; distinct by source text. " +
 		"thorough adds the exhaustive family of <=3 nested/sibling elements x 17 display values."
-	if err := runLattice(m, out); err != nil {
+	if os.Getenv("C09_WORKER") != "" {
+		return worker(tier, seed, modelPath, repo, out)
+	}
+	return supervise(out)
+}
+
+const maxFatal = 6
+
+func supervise(out *res.Result) error {
+	dir, err := os.MkdirTemp("", "c09-sup")
+	if err != nil {
 		return err
 	}
-	for _, src := range corpus {
-		if err := rn.one(src, 0); err != nil {
-			return err
+	defer os.RemoveAll(dir)
+	prog, seg := dir+"/progress", dir+"/segment.json"
+	start, fatals := 0, 0
+	for {
+		os.Remove(prog)
+		os.Remove(seg)
+		cmd := exec.Command(os.Args[0], os.Args[1:]...)
+		cmd.Env = append(os.Environ(), "C09_WORKER=1", "C09_START="+strconv.Itoa(start), "C09_PROGRESS="+prog, "C09_SEGOUT="+seg)
+		var errBuf capped
+		cmd.Stderr = &errBuf
+		cmd.Stdout = os.Stdout
+		runErr := cmd.Run()
+		mergeSegment(out, seg)
+		pb, _ := os.ReadFile(prog)
+		ptxt := string(pb)
+		if runErr == nil && ptxt == "done" {
+			return nil
+		}
+		// the worker died: which step was it on?
+		idx, src := start, ""
+		if i := strings.IndexByte(ptxt, '\n'); i > 0 {
+			idx, _ = strconv.Atoi(ptxt[:i])
+			src = ptxt[i+1:]
+		}
+		what, site := fatalSummary(errBuf.String())
+		if src == "" {
+			return fmt.Errorf("worker died before its first step (%v): %s", runErr, what)
+		}
+		out.Add(res.Finding{Kind: "crash", Op: "crash:fatal", Input: src,
+			Reason: fmt.Sprintf("the worker process died on this document (%v): %s", runErr, what), Key: site})
+		fatals++
+		if fatals >= maxFatal {
+			out.Notes = append(out.Notes, fmt.Sprintf("run stopped after %d fatal worker deaths (step %d)", fatals, idx))
+			return nil
+		}
+		start = idx + 1
+	}
+}
+
+// capped keeps the first 64 KiB written to it.
+type capped struct{ b []byte }
+
+func (c *capped) Write(p []byte) (int, error) {
+	if room := 64<<10 - len(c.b); room > 0 {
+		if len(p) < room {
+			room = len(p)
+		}
+		c.b = append(c.b, p[:room]...)
+	}
+	return len(p), nil
+}
+func (c *capped) String() string { return string(c.b) }
+
+// fatalSummary extracts "fatal error: …"/"panic: …" and the first webrender frame of the running goroutine.
+func fatalSummary(stderr string) (what, site string) {
+	site = "?"
+	lines := strings.Split(stderr, "\n")
+	for _, l := range lines {
+		if what == "" && (strings.HasPrefix(l, "fatal error:") || strings.HasPrefix(l, "panic:") || strings.HasPrefix(l, "runtime: goroutine stack exceeds") || strings.HasPrefix(l, "wrh run:")) {
+			what = l
 		}
 	}
-	// the corpus documents (they include the minimal inputs of past defects) also go through the whole
-	// renderer: a well-formed box tree must not make layout panic
-	if fonts, ferr := render.NewFonts(repo); ferr == nil {
-		for _, src := range corpus {
-			var rerr error
-			oc := render.Guard(30*time.Second, func() { _, rerr = render.Full(src, fonts, render.Opts{}) })
-			out.Hit("corpus:rendered")
-			if !oc.OK() {
-				out.Add(res.Finding{Kind: "crash", Op: "crash:render-corpus", Input: src, Reason: fmt.Sprint(oc.Panic, " timeout=", oc.Timeout, " ", rerr), Key: oc.Site})
+	running := false
+	for _, l := range lines {
+		if strings.HasPrefix(l, "goroutine ") && strings.Contains(l, "[running]") {
+			running = true
+			continue
+		}
+		if running && strings.HasPrefix(l, "github.com/benoitkugler/webrender/") {
+			s := strings.TrimPrefix(l, "github.com/benoitkugler/webrender/")
+			if i := strings.LastIndex(s, "("); i > 0 {
+				s = s[:i]
+			}
+			site = s
+			break
+		}
+	}
+	if what == "" {
+		what = short(stderr)
+	}
+	return what, site
+}
+
+func mergeSegment(out *res.Result, path string) {
+	b, err := os.ReadFile(path)
+	if err != nil {
+		return
+	}
+	var seg res.Result
+	if json.Unmarshal(b, &seg) != nil {
+		return
+	}
+	out.Evaluations += seg.Evaluations
+	out.Nontrivial += seg.Nontrivial
+	out.ModelCalls += seg.ModelCalls
+	for k, v := range seg.Dist {
+		out.Dist[k] += v
+	}
+	for _, x := range seg.Samples {
+		out.Sample(x)
+	}
+	out.Exhaustive = out.Exhaustive || seg.Exhaustive
+	out.Notes = append(out.Notes, seg.Notes...)
+	out.NotChecked = append(out.NotChecked, seg.NotChecked...)
+	for _, f := range seg.Findings { // same caps as res.Add, without counting the distribution twice
+		n := 0
+		for _, g := range out.Findings {
+			if g.Kind == f.Kind && g.Op == f.Op && g.Key == f.Key {
+				n++
 			}
 		}
-	} else {
-		out.NotChecked = append(out.NotChecked, "corpus render: "+ferr.Error())
+		if n < 3 && len(out.Findings) < 40 {
+			out.Findings = append(out.Findings, f)
+		}
+	}
+}
+
+// steps enumerates every step of a run with its index: corpus documents, corpus renders, generated
+// documents, the exhaustive family.  kind is "doc" or "render".
+func steps(tier string, seed uint64, out *res.Result, f func(idx int, kind, src string, caseSeed uint64) error) error {
+	idx := 0
+	for _, src := range corpus {
+		if err := f(idx, "doc", src, 0); err != nil {
+			return err
+		}
+		idx++
+	}
+	for _, src := range corpus {
+		if err := f(idx, "render", src, 0); err != nil {
+			return err
+		}
+		idx++
 	}
 	n := 20000
 	if tier == "thorough" {
@@ -1062,37 +1234,114 @@ func Run(tier string, seed uint64, modelPath, repo string, out *res.Result) erro
 		cr := r.Sub()
 		cs := cr.Seed()
 		var src string
-		if i%10 == 9 {
+		switch {
+		case i%10 == 9:
 			src = genGridDoc(cr)
-			out.Hit("stream:grid")
-		} else if i%10 == 4 {
+		case i%10 == 4:
 			src = genHiddenDoc(cr)
-			out.Hit("stream:hidden")
-		} else {
+		case i%10 == 7:
+			src = genReplacedDoc(cr)
+		default:
 			src = genDoc(cr, i%4 == 0)
 		}
-		if i < 3 {
-			out.Sample(map[string]interface{}{"html": src, "seed": cs})
-		}
-		if err := rn.one(src, cs); err != nil {
+		if err := f(idx, "doc", src, cs); err != nil {
 			return err
 		}
+		idx++
 	}
 	if tier == "thorough" {
 		var rerr error
-		cnt := 0
 		exhaustive(func(src string) {
 			if rerr == nil {
-				rerr = rn.one(src, 0)
-				cnt++
+				rerr = f(idx, "doc", src, 0)
+				idx++
 			}
 		})
 		if rerr != nil {
 			return rerr
 		}
-		out.Exhaustive = true
-		out.Notes = append(out.Notes, fmt.Sprintf("exhaustive family: %d documents", cnt))
 	}
-	out.ModelCalls = m.N
+	return nil
+}
+
+func worker(tier string, seed uint64, modelPath, repo string, out *res.Result) error {
+	debug.SetMaxStack(256 << 20) // die quickly on unbounded recursion; real documents need a tiny fraction
+	start, _ := strconv.Atoi(os.Getenv("C09_START"))
+	prog, seg := os.Getenv("C09_PROGRESS"), os.Getenv("C09_SEGOUT")
+	m, err := mp.Start(modelPath)
+	if err != nil {
+		return err
+	}
+	defer m.Close()
+	render.Quiet()
+	rn := &runner{m: m, out: out, debug: os.Getenv("C09_DEBUG") != ""}
+	if start == 0 {
+		if err := runLattice(m, out); err != nil {
+			return err
+		}
+	}
+	var fonts text.FontConfiguration
+	var ferr error
+	fontsTried := false
+	flush := func() {
+		out.ModelCalls = m.N
+		if seg != "" {
+			out.Write(seg)
+		}
+	}
+	nDocs := 0
+	err = steps(tier, seed, out, func(idx int, kind, src string, cs uint64) error {
+		if idx < start {
+			return nil
+		}
+		if prog != "" {
+			os.WriteFile(prog, []byte(strconv.Itoa(idx)+"\n"+src), 0o644)
+		}
+		switch kind {
+		case "render":
+			// the corpus documents (they include the minimal inputs of past defects) also go through the
+			// whole renderer: a well-formed box tree must not make layout panic
+			if !fontsTried {
+				fonts, ferr = render.NewFonts(repo)
+				fontsTried = true
+				if ferr != nil {
+					out.NotChecked = append(out.NotChecked, "corpus render: "+ferr.Error())
+				}
+			}
+			if ferr == nil {
+				var rerr error
+				oc := render.Guard(60*time.Second, func() { _, rerr = render.Full(src, fonts, render.Opts{}) })
+				out.Hit("corpus:rendered")
+				if !oc.OK() {
+					out.Add(res.Finding{Kind: "crash", Op: "crash:render-corpus", Input: src, Reason: fmt.Sprint(oc.Panic, " timeout=", oc.Timeout, " ", rerr), Key: oc.Site})
+				}
+			}
+		default:
+			if nDocs < 3 && cs != 0 {
+				out.Sample(map[string]interface{}{"html": src, "seed": cs})
+			}
+			if cs != 0 {
+				nDocs++
+			}
+			if err := rn.one(src, cs); err != nil {
+				return err
+			}
+		}
+		if idx%1000 == 999 {
+			flush()
+		}
+		return nil
+	})
+	if err != nil {
+		flush()
+		return err
+	}
+	if tier == "thorough" {
+		out.Exhaustive = true
+	}
+	flush()
+	if prog != "" {
+		os.WriteFile(prog, []byte("done"), 0o644)
+	}
 	return nil
 }
